@@ -1,4 +1,5 @@
 import JokerVerif.Lemmas.KernelReal
+import JokerVerif.Lemmas.SlotLemmas
 /-!
 # C01 — marginal log-likelihood equals the analytic Gaussian marginal
 
@@ -74,6 +75,20 @@ theorem slots_column_order (pr : LinPrior α) :
   · intro l _
     have : 2 + pr.offsets.length + l = (pr.offsets.length + l) + 1 + 1 := by omega
     simp [slots, this, List.getElem?_append_right]
+
+omit [Field α] in
+/-- **the index arithmetic of `CJokerHelper.__init__` realises that order**: the `mu` / `Lambda` arrays as the
+constructor fills them (zero-initialised, offsets written at `2 + i`, linear parameter number `i` written at
+`i` for `K`, `v0` and at `i + n_offsets` for `v1, v2, …`) agree, on the `n_linear` positions the kernel reads,
+with the column-order slots — for every `poly_trend`, every number of offsets and both K-prior kinds -/
+theorem init_slots_refine_column_order [Zero α] (pr : LinPrior α) :
+    (slotsImp pr).take (2 + pr.offsets.length + pr.trend.length) = slots pr := by
+  apply List.ext_getElem?
+  intro j
+  by_cases hj : j < 2 + pr.offsets.length + pr.trend.length
+  · rw [List.getElem?_take_of_lt hj, slotsImp_get pr j hj]
+  · have h1 : (slots pr).length = 2 + pr.offsets.length + pr.trend.length := by simp [slots]; omega
+    rw [List.getElem?_eq_none (by simp; omega), List.getElem?_eq_none (by omega)]
 
 /-- … and so are the columns of a design-matrix row: Kepler term, constant, one indicator per non-reference
 survey, then the powers of `t − t_ref` — column `j` multiplies exactly the parameter whose prior is in slot `j` -/
@@ -212,5 +227,7 @@ def exIn : KIn 2 2 ℚ :=
 example : (sIvar exIn).toList = [2, 4/5] := by decide +kernel
 example : (kAinv exIn).toM.det ≠ 0 := by decide +kernel
 example : kdetB exIn = kdetFast exIn := by decide +kernel
+example : slotsImp (⟨(1, 2), (3, 4), [(5, 6)], [(7, 8), (9, 10)]⟩ : LinPrior ℚ) =
+    [(1, 2), (3, 4), (5, 6), (7, 8), (9, 10), (0, 0)] := by decide +kernel
 
 end Kernel
